@@ -228,6 +228,11 @@ impl SassNumber {
             return false;
         }
 
+        // a unitless number is never compatible with a number that has a unit
+        if (self.unit == Unit::None) != (other.unit == Unit::None) {
+            return false;
+        }
+
         let known_compatibilities = match known_compatibilities_by_unit(&self.unit) {
             Some(known_compatibilities) => known_compatibilities,
             None => return true,
